@@ -43,7 +43,8 @@ def singles(d, tier="quick"):
 
     types = TYPES + (["any"] if d == 3 else [])
     add("type", types + [["integer", "string"], ["number", "null"]] + (
-        [[{"type": "string"}, "null"], [{"minimum": 1}, {"type": "string"}]] if d == 3 else []))
+        [[{"type": "string"}, "null"], [{"minimum": 1}, {"type": "string"}],
+         ["null", {"minimum": 1}], ["string", {"type": "integer"}, "null", {"maxItems": 1}]] if d == 3 else []))
     add("enum", [[0], [1, "a"], [True], [None, []], [{}], [[0]], [{"a": 1}], [1.0], [False, "b"]])
     if d >= 6:
         add("const", [0, 1, True, False, "a", [], {}, None, [1], {"a": 1}, 1.0])
@@ -91,7 +92,7 @@ def singles(d, tier="quick"):
     if d == 3:
         add("extends", L + [[s1, s2] for s1 in L3 for s2 in L3] +
             [[{}, {}, {"type": "string"}], [{"type": "integer"}, {"minimum": 1}, {"maximum": 0}], []])
-        add("disallow", types + [["integer", "string"], [{"minimum": 1}, "null"]])
+        add("disallow", types + [["integer", "string"], [{"minimum": 1}, "null"], ["null", {"minimum": 1}]])
     add("format", ["ipv4", "nope"])
     add("title", ["x"])
     add("default", [0])
